@@ -98,7 +98,10 @@ def main(argv=None):
         bysig.setdefault(c['spec']['sig'] + '|' + c['sig'], c)
     violations, knowns, nonrepro = [], [], []
     os.makedirs(os.path.join(HERE, 'replays'), exist_ok=True)
+    skipped_replays = 0
     for fullsig, c in sorted(bysig.items()):
+        if len(violations) + len(nonrepro) >= 60:
+            skipped_replays += 1; continue
         if c.get('replayed') is not None:
             ok, detail = c['replayed'], c.get('replay_detail', '')
         elif hasattr(mod, 'replay'):
@@ -125,8 +128,8 @@ def main(argv=None):
         print('VIOLATION property=%s replay=%s' % (prop, path))
         print('   signature: %s' % fullsig)
         print('   %s' % detail[:700])
-    if len(violations) > 12:
-        print('   ... and %d more distinct signatures' % (len(violations) - 12))
+    if len(violations) > 12 or skipped_replays:
+        print('   ... and %d more distinct signatures (%d further counterexamples not replayed)' % (max(0, len(violations) - 12), skipped_replays))
 
     # ---- evidence
     S = lambda k: sum(r.get(k, 0) or 0 for r in results)
